@@ -1,5 +1,4 @@
-(* C08: the wait clauses of the oracle on histories without close requests, and
-   "a close wait never succeeds before its object is gone" on all legal histories *)
+(* C08: lemmas about the waits shared by Proofs/C08Close.v and Proofs/C08Full.v *)
 From Coq Require Import List Bool Arith NArith Lia.
 From TxVerif Require Import Lib.Bytes Lib.NList Spec.C07 Spec.C08 Model.State Model.StateNotify
   Proofs.NListProofs Proofs.C07Proofs Proofs.StateShape Proofs.C08Proofs Proofs.C08Refine.
@@ -41,86 +40,7 @@ Proof. destruct path; destruct kw; try reflexivity; apply dones_concat_quiet; in
 Ltac dq := repeat (rewrite ?dones_app, ?dones_new, ?dones_pathmatch, ?dones_tell_c, ?dones_tell_s, ?app_nil_r, ?app_nil_l).
 
 (* what a CIRC event does to the waits, when no close request is outstanding *)
-Lemma x_circ_waits s id st path kw s' es : cclosing s = [] ->
-  x_circ s id st path kw = Some (s', es) ->
-  let o := xc_obj s id in
-  cclosing s' = [] /\ sclosing s' = sclosing s /\ cmds s' = cmds s /\
-  match st with
-  | CBuilt =>
-      wcs s' = wcs s /\
-      (forall o', tget P0 (wbs s') o' = if o =? o' then match tget P0 (wbs s) o with OSPending _ => OSFired (WOkC o) | f => f end
-                                        else tget P0 (wbs s) o') /\
-      dones es = match tget P0 (wbs s) o with OSPending ws => map (fun w => (w, WOkC o)) ws | OSFired _ => [] end
-  | CClosed | CFailed =>
-      exists cls r1 r2,
-      (forall o', tget P0 (wcs s') o' = if o =? o' then match tget P0 (wcs s) o with OSPending _ => OSFired (WOkC o) | f => f end
-                                        else tget P0 (wcs s) o') /\
-      (forall o', tget P0 (wbs s') o' = if o =? o' then match tget P0 (wbs s) o with OSPending _ => OSFired (WFail cls r1 r2) | f => f end
-                                        else tget P0 (wbs s) o') /\
-      dones es = (match tget P0 (wcs s) o with OSPending ws => map (fun w => (w, WOkC o)) ws | OSFired _ => [] end)
-                 ++ (match tget P0 (wbs s) o with OSPending ws => map (fun w => (w, WFail cls r1 r2)) ws | OSFired _ => [] end)
-  | _ => wbs s' = wbs s /\ wcs s' = wcs s /\ dones es = []
-  end.
-Proof.
-  intros Hc. unfold x_circ, xc_obj.
-  destruct (step (base s) (ECirc id st path kw)) as [post|]; [|discriminate].
-  set (o := match kfind fst id (circuits (base s)) with Some p => snd p | None => N.of_nat (length (cheap (base s))) end).
-  assert (E : exists first oldpath, match kfind fst id (circuits (base s)) with
-              | Some p => (false, snd p, match get_c (snd p) (base s) with Some c => c_path c | None => [] end)
-              | None => (true, N.of_nat (length (cheap (base s))), [])
-              end = (first, o, oldpath)).
-  { unfold o. destruct (kfind fst id (circuits (base s))); eexists; eexists; reflexivity. }
-  destruct E as [first [oldpath E]]. rewrite E. clear E.
-  destruct st; cbv iota beta.
-  - intros [= <- <-]. cbn [wbs wcs cclosing sclosing cmds]. repeat split; auto. now dq.
-  - destruct (fire (wbs s) o (WOkC o)) as [wbs1 fired] eqn:F. intros [= <- <-]. cbn [wbs wcs cclosing sclosing cmds].
-    destruct (fire_spec _ _ _ _ _ F) as [F1 F2]. repeat split; auto. dq. exact F2.
-  - intros [= <- <-]. cbn [wbs wcs cclosing sclosing cmds]. repeat split; auto. now dq.
-  - intros [= <- <-]. cbn [wbs wcs cclosing sclosing cmds]. repeat split; auto. now dq.
-  - destruct (fire (wcs s) o (WOkC o)) as [wcs1 o_wc] eqn:F1. destruct (reason_of kw) as [r1 r2].
-    destruct (fire (wbs s) o (WFail 2 r1 r2)) as [wbs1 o_wb] eqn:F2. intros [= <- <-]. cbn [wbs wcs cclosing sclosing cmds].
-    destruct (fire_spec _ _ _ _ _ F1) as [A1 A2]. destruct (fire_spec _ _ _ _ _ F2) as [B1 B2].
-    rewrite Hc. split; [reflexivity|]. split; [reflexivity|]. split; [reflexivity|].
-    exists 2, r1, r2. split; [exact A1|]. split; [exact B1|]. dq. cbn [tfind kfind option_map dones map concat app].
-    now rewrite A2, B2.
-  - destruct (fire (wcs s) o (WOkC o)) as [wcs1 o_wc] eqn:F1. destruct (reason_of kw) as [r1 r2].
-    destruct (fire (wbs s) o (WFail 1 r1 r2)) as [wbs1 o_wb] eqn:F2. intros [= <- <-]. cbn [wbs wcs cclosing sclosing cmds].
-    destruct (fire_spec _ _ _ _ _ F1) as [A1 A2]. destruct (fire_spec _ _ _ _ _ F2) as [B1 B2].
-    rewrite Hc. split; [reflexivity|]. split; [reflexivity|]. split; [reflexivity|].
-    exists 1, r1, r2. split; [exact A1|]. split; [exact B1|]. dq. cbn [tfind kfind option_map dones map concat app].
-    now rewrite A2, B2.
-Qed.
 
-Lemma x_stream_waits s id st cid host port kw s' es : sclosing s = [] ->
-  x_stream s id st cid host port kw = Some (s', es) ->
-  sclosing s' = [] /\ cclosing s' = cclosing s /\ cmds s' = cmds s /\ wbs s' = wbs s /\ wcs s' = wcs s /\ dones es = [].
-Proof.
-  intros Hc. unfold x_stream.
-  destruct (step (base s) (EStream id st cid host port kw)) as [post|]; [|discriminate].
-  destruct (match kfind fst id (streams (base s)) with Some p => _ | None => _ end) as [[first o] pc].
-  intros [= <- <-]. cbn [wbs wcs cclosing sclosing cmds]. rewrite Hc.
-  split; [now destruct (s_terminal st)|]. repeat split.
-  rewrite dones_app.
-  assert (A : dones (match st with
-                     | SClosed | SFailed | SDetached => []
-                     | _ => if cid =? 0 then [] else
-                            match pc with
-                            | Some _ => []
-                            | None => match kfind fst cid (circuits (base s)) with
-                                      | Some p => match get_c (snd p) (base s) with
-                                                  | Some c => if memN o (c_streams c) then []
-                                                              else tell_s (if first then dedupe (gsl s) else tget [] (sls s) o) MS_ATTACH o (snd p + 1) []
-                                                  | None => []
-                                                  end
-                                      | None => []
-                                      end
-                            end
-                     end) = []).
-  { destruct st; try reflexivity; destruct (cid =? 0); try reflexivity; destruct pc; try reflexivity;
-      destruct (kfind fst cid (circuits (base s))) as [p|]; try reflexivity; destruct (get_c (snd p) (base s)) as [c|]; try reflexivity;
-      destruct (memN o (c_streams c)); try reflexivity; apply dones_tell_s. }
-  rewrite A, app_nil_r. destruct st; cbn [tfind kfind option_map]; dq; reflexivity.
-Qed.
 
 (* ---------------------------------------------------------------- done_ok from membership facts *)
 Lemma kfind_unique {V} (l : list (N * V)) w x :
@@ -150,13 +70,6 @@ Lemma done_ok_none es : dones es = [] -> done_ok [] [] es = true.
 Proof. intros H. unfold done_ok. now rewrite H. Qed.
 
 (* ---------------------------------------------------------------- the refinement with waits (no close requests) *)
-Definition good_wr (xs : xstate) (wr : wait) : Prop :=
-  w_circ wr = true /\ w_gone_seen wr = false /\ w_pending_cmd wr = false /\
-  match w_kind wr with
-  | KBuilt => In (w_id wr) (os_holders (tget P0 (wbs xs) (w_obj wr)))
-  | KClosed => In (w_id wr) (os_holders (tget P0 (wcs xs) (w_obj wr)))
-  | KClose => False
-  end.
 
 Definition info_ok (ss : sstate) (xs : xstate) (o : N) (c : ccell) : Prop :=
   let info := tget (info0 0) (l_cinfo (s_l ss)) o in
@@ -174,34 +87,9 @@ Definition info_ok (ss : sstate) (xs : xstate) (o : N) (c : ccell) : Prop :=
   | OSFired r => r = WOkC o /\ al = false
   end.
 
-Record Rel2 (ss : sstate) (xs : xstate) : Prop := {
-  q_rel : Rel (s_l ss) xs;
-  q_cmdq : s_cmdq ss = []; q_cmds : cmds xs = []; q_cc : cclosing xs = []; q_sc : sclosing xs = [];
-  q_info : forall o c, get_c o (base xs) = Some c -> info_ok ss xs o c;
-  q_fresh : forall o, l_nc (s_l ss) <= o ->
-            tget P0 (wbs xs) o = P0 /\ tget P0 (wcs xs) o = P0 /\ tget (info0 0) (l_cinfo (s_l ss)) o = info0 0;
-  q_open : forall wr, In wr (s_open ss) <-> good_wr xs wr;
-  q_open_nd : NoDup (map w_id (s_open ss));
-  q_hold_cnt : forall w, (countN w (holders xs) <= 1)%nat;
-  q_hold_used : forall w, In w (holders xs) -> In w (l_used (s_l ss))
-}.
 
-Lemma Rel2_init rts : Rel2 ss0 (xinit rts).
-Proof.
-  constructor; try reflexivity.
-  - apply Rel_init.
-  - intros o c H. discriminate H.
-  - intros o _. repeat split.
-  - intros wr. split; [intros [] |]. intros [_ [_ [_ H]]]. destruct (w_kind wr); cbn in H; tauto.
-  - constructor.
-  - intros w. cbn. lia.
-  - intros w [].
-Qed.
 
 (* holders without close machinery: just the two waiter tables *)
-Lemma holders_simple xs : cclosing xs = [] -> sclosing xs = [] -> cmds xs = [] ->
-  holders xs = tholders os_holders (wbs xs) ++ tholders os_holders (wcs xs).
-Proof. intros A B C. unfold holders. rewrite A, B, C. cbn. now rewrite !app_nil_r. Qed.
 
 (* ---------------------------------------------------------------- ids in the waiter tables *)
 Lemma count_tget_le {V} (h : V -> list N) (d : V) (w : N) t k : h d = [] ->
@@ -226,56 +114,6 @@ Qed.
 
 Definition pend (t : list (N * oneshot)) (o : N) : list N := os_holders (tget P0 t o).
 
-Section Ids.
-  Variable xs : xstate.
-  Hypothesis Hc : cclosing xs = [].
-  Hypothesis Hs : sclosing xs = [].
-  Hypothesis Hm : cmds xs = [].
-  Hypothesis Hcnt : forall w, (countN w (holders xs) <= 1)%nat.
-
-  Lemma hold_split (w : N) :
-    countN w (holders xs) = (countN w (tholders os_holders (wbs xs)) + countN w (tholders os_holders (wcs xs)))%nat.
-  Proof. rewrite (holders_simple xs Hc Hs Hm). apply countN_app. Qed.
-
-  Lemma pend_b_in_holders w o : In w (pend (wbs xs) o) -> In w (holders xs).
-  Proof.
-    intros H. apply countN_pos_In. rewrite hold_split.
-    pose proof (count_tget_le os_holders P0 w (wbs xs) o eq_refl). pose proof (countN_In_pos _ _ H). unfold pend in *. lia.
-  Qed.
-  Lemma pend_c_in_holders w o : In w (pend (wcs xs) o) -> In w (holders xs).
-  Proof.
-    intros H. apply countN_pos_In. rewrite hold_split.
-    pose proof (count_tget_le os_holders P0 w (wcs xs) o eq_refl). pose proof (countN_In_pos _ _ H). unfold pend in *. lia.
-  Qed.
-  Lemma pend_b_nodup o : NoDup (pend (wbs xs) o).
-  Proof.
-    apply NoDup_of_count. intros w H. pose proof (countN_In_pos _ _ H).
-    pose proof (count_tget_le os_holders P0 w (wbs xs) o eq_refl). pose proof (Hcnt w). rewrite hold_split in *. unfold pend in *. lia.
-  Qed.
-  Lemma pend_c_nodup o : NoDup (pend (wcs xs) o).
-  Proof.
-    apply NoDup_of_count. intros w H. pose proof (countN_In_pos _ _ H).
-    pose proof (count_tget_le os_holders P0 w (wcs xs) o eq_refl). pose proof (Hcnt w). rewrite hold_split in *. unfold pend in *. lia.
-  Qed.
-  Lemma pend_b_b w o o' : In w (pend (wbs xs) o) -> In w (pend (wbs xs) o') -> o = o'.
-  Proof.
-    intros A B. destruct (N.eq_dec o o') as [E|E]; [exact E|exfalso].
-    pose proof (countN_In_pos _ _ A). pose proof (countN_In_pos _ _ B).
-    pose proof (count_tget_two os_holders P0 w (wbs xs) o o' eq_refl E). pose proof (Hcnt w). rewrite hold_split in *. unfold pend in *. lia.
-  Qed.
-  Lemma pend_c_c w o o' : In w (pend (wcs xs) o) -> In w (pend (wcs xs) o') -> o = o'.
-  Proof.
-    intros A B. destruct (N.eq_dec o o') as [E|E]; [exact E|exfalso].
-    pose proof (countN_In_pos _ _ A). pose proof (countN_In_pos _ _ B).
-    pose proof (count_tget_two os_holders P0 w (wcs xs) o o' eq_refl E). pose proof (Hcnt w). rewrite hold_split in *. unfold pend in *. lia.
-  Qed.
-  Lemma pend_b_c w o o' : In w (pend (wbs xs) o) -> In w (pend (wcs xs) o') -> False.
-  Proof.
-    intros A B. pose proof (countN_In_pos _ _ A). pose proof (countN_In_pos _ _ B).
-    pose proof (count_tget_le os_holders P0 w (wbs xs) o eq_refl). pose proof (count_tget_le os_holders P0 w (wcs xs) o' eq_refl).
-    pose proof (Hcnt w). rewrite hold_split in *. unfold pend in *. lia.
-  Qed.
-End Ids.
 
 (* ---------------------------------------------------------------- generic consequences of the conservation law *)
 Lemma hold_step xs o xs' es (used : list N) : x_op xs o = Some (xs', es) ->
@@ -314,7 +152,7 @@ Qed.
 
 Lemma lstep_listener ls o ls' : listener_op o = true -> lstep ls o = Some ls' ->
   l_tv ls' = l_tv ls /\ l_cdict ls' = l_cdict ls /\ l_sdict ls' = l_sdict ls /\ l_nc ls' = l_nc ls /\ l_ns ls' = l_ns ls /\
-  l_cinfo ls' = l_cinfo ls /\ l_sinfo ls' = l_sinfo ls /\ l_used ls' = l_used ls.
+  l_cinfo ls' = l_cinfo ls /\ l_sinfo ls' = l_sinfo ls /\ l_used ls' = l_used ls /\ l_nb ls' = l_nb ls /\ l_ncl ls' = l_ncl ls.
 Proof.
   destruct o; try discriminate; intros _; cbn [lstep].
   - intros [= <-]. repeat split.
@@ -325,58 +163,16 @@ Proof.
   - destruct ((o <? l_ns ls) && memN l (tget [] (l_sregs ls) o)); [|discriminate]. intros [= <-]. repeat split.
 Qed.
 
-Lemma good_wr_ext xs xs' wr : wbs xs' = wbs xs -> wcs xs' = wcs xs -> good_wr xs' wr <-> good_wr xs wr.
-Proof. intros A B. unfold good_wr. now rewrite A, B. Qed.
 
 Lemma info_ok_ext ss ss' xs xs' o c :
   l_cinfo (s_l ss') = l_cinfo (s_l ss) -> l_cdict (s_l ss') = l_cdict (s_l ss) -> wbs xs' = wbs xs -> wcs xs' = wcs xs ->
   info_ok ss xs o c -> info_ok ss' xs' o c.
 Proof. intros A B C D. unfold info_ok. now rewrite A, B, C, D. Qed.
 
-Lemma rel2_listener ss xs o ls' : Rel2 ss xs -> listener_op o = true -> lstep (s_l ss) o = Some ls' ->
-  exists xs' es ss', x_op xs o = Some (xs', es) /\ spec_op ss o es = Some ss' /\ Rel2 ss' xs'.
-Proof.
-  intros Q Lo L. destruct (rel_op _ xs o ls' (q_rel _ _ Q) L) as [xs' [es [X [R' _]]]].
-  destruct (x_op_listener xs o xs' es Lo X) as [Fb [F1 [F2 [F3 [F4 [F5 ->]]]]]].
-  destruct (lstep_listener _ o ls' Lo L) as [E1 [E2 [E3 [E4 [E5 [E6 [E7 E8]]]]]]].
-  exists xs', [], {| s_l := ls'; s_open := s_open ss; s_cmdq := s_cmdq ss |}.
-  split; [exact X|]. split.
-  - unfold spec_op. rewrite L. destruct o; try discriminate; reflexivity.
-  - destruct Q. constructor; cbn [s_l s_open s_cmdq].
-    + exact R'.
-    + exact q_cmdq0.
-    + congruence.
-    + congruence.
-    + congruence.
-    + intros o' c G. rewrite Fb in G. apply (info_ok_ext ss _ xs xs'); auto.
-    + intros o' Ho. rewrite E4 in Ho. rewrite F1, F2, E6. now apply q_fresh0.
-    + intros wr. rewrite (good_wr_ext xs xs' wr F1 F2). apply q_open0.
-    + exact q_open_nd0.
-    + intros w. unfold holders. rewrite F1, F2, F3, F4, F5. apply q_hold_cnt0.
-    + intros w. unfold holders. rewrite F1, F2, F3, F4, F5, E8. apply q_hold_used0.
-Qed.
 
-Lemma rel2_ack ss xs : Rel2 ss xs ->
-  exists xs' es ss', x_op xs OAck = Some (xs', es) /\ spec_op ss OAck es = Some ss' /\ Rel2 ss' xs'.
-Proof.
-  intros Q. exists xs, [], {| s_l := s_l ss; s_open := s_open ss; s_cmdq := [] |}.
-  split; [cbn [x_op]; now rewrite (q_cmds _ _ Q)|]. split.
-  - unfold spec_op. cbn [lstep]. unfold spec_ack. now rewrite (q_cmdq _ _ Q).
-  - destruct Q. constructor; cbn [s_l s_open s_cmdq]; auto.
-Qed.
 
 (* ---------------------------------------------------------------- when_built / when_closed requests *)
-Definition use_w (ls : lstate) (w : N) : lstate :=
-  {| l_tv := l_tv ls; l_cdict := l_cdict ls; l_sdict := l_sdict ls; l_nc := l_nc ls; l_ns := l_ns ls;
-     l_cinfo := l_cinfo ls; l_sinfo := l_sinfo ls; l_cregs := l_cregs ls; l_sregs := l_sregs ls;
-     l_gcl := l_gcl ls; l_gsl := l_gsl ls; l_used := w :: l_used ls |}.
-
-Lemma rel2_used ss xs w : Rel2 ss xs -> Rel2 {| s_l := use_w (s_l ss) w; s_open := s_open ss; s_cmdq := s_cmdq ss |} xs.
-Proof.
-  intros Q. destruct Q. constructor; cbn [s_l s_open s_cmdq use_w l_nc l_cinfo l_cdict l_used]; auto.
-  - apply (Rel_frame (s_l ss) _ xs xs q_rel0); reflexivity.
-  - intros w' H. right. now apply q_hold_used0.
-Qed.
+Definition use_w (ls : lstate) (w : N) : lstate := use_q ls w (l_nb ls) (l_ncl ls).
 
 Lemma done_ok_single w x r : done_ok [(w, x)] [] [NDone w r] = res_ok x r.
 Proof.
@@ -384,162 +180,11 @@ Proof.
   rewrite N.eqb_refl. cbn [orb andb]. now rewrite !andb_true_r.
 Qed.
 
-Lemma open_ids_used ss xs wr : Rel2 ss xs -> In wr (s_open ss) -> In (w_id wr) (l_used (s_l ss)).
-Proof.
-  intros Q H. apply (q_hold_used _ _ Q). apply (q_open _ _ Q) in H. destruct H as [_ [_ [_ H]]].
-  destruct (w_kind wr); [| |destruct H].
-  - apply (pend_b_in_holders xs (q_cc _ _ Q) (q_sc _ _ Q) (q_cmds _ _ Q) _ _ H).
-  - apply (pend_c_in_holders xs (q_cc _ _ Q) (q_sc _ _ Q) (q_cmds _ _ Q) _ _ H).
-Qed.
 
-Definition new_wait (w : N) (k : wkind) (o : N) : wait :=
-  {| w_id := w; w_kind := k; w_circ := true; w_obj := o; w_gone_seen := false; w_pending_cmd := false |}.
 
 (* a when_built / when_closed request that has to wait: the id joins the waiter list of the object *)
-Lemma rel2_pending ss xs o w (built : bool) xs' ws :
-  Rel2 ss xs -> o < l_nc (s_l ss) -> memN w (l_used (s_l ss)) = false ->
-  x_op xs (if built then OWhenBuilt o w else OWhenClosed o w) = Some (xs', []) ->
-  base xs' = base xs -> cls xs' = cls xs -> sls xs' = sls xs -> gcl xs' = gcl xs -> gsl xs' = gsl xs ->
-  cclosing xs' = cclosing xs -> sclosing xs' = sclosing xs -> cmds xs' = cmds xs ->
-  (if built then tget P0 (wbs xs) o = OSPending ws /\ wbs xs' = tset (wbs xs) o (OSPending (ws ++ [w])) /\ wcs xs' = wcs xs
-   else tget P0 (wcs xs) o = OSPending ws /\ wcs xs' = tset (wcs xs) o (OSPending (ws ++ [w])) /\ wbs xs' = wbs xs) ->
-  Rel2 {| s_l := use_w (s_l ss) w; s_open := s_open ss ++ [new_wait w (if built then KBuilt else KClosed) o]; s_cmdq := s_cmdq ss |} xs'.
-Proof.
-  intros Q Hlt Hfr X Fb F1 F2 F3 F4 F5 F6 F7 HT.
-  assert (Hreq : req_id (if built then OWhenBuilt o w else OWhenClosed o w) = [w]) by (destruct built; reflexivity).
-  destruct (hold_step xs _ xs' [] (l_used (s_l ss)) X (q_hold_cnt _ _ Q) (q_hold_used _ _ Q)) as [HC HU].
-  { rewrite Hreq. intros w' [<-|[]]. now apply memN_false. }
-  rewrite Hreq in HU.
-  assert (TB : forall o', tget P0 (wbs xs') o' = if built && (o =? o') then OSPending (ws ++ [w]) else tget P0 (wbs xs) o').
-  { intros o'. destruct built; cbn [andb]; destruct HT as [_ [E1 E2]]; [rewrite E1, tget_tset; reflexivity | now rewrite E2]. }
-  assert (TC : forall o', tget P0 (wcs xs') o' = if negb built && (o =? o') then OSPending (ws ++ [w]) else tget P0 (wcs xs) o').
-  { intros o'. destruct built; cbn [andb negb]; destruct HT as [_ [E1 E2]]; [now rewrite E2 | rewrite E1, tget_tset; reflexivity]. }
-  destruct Q. constructor; cbn [s_l s_open s_cmdq use_w l_nc l_cinfo l_cdict l_used].
-  - apply (Rel_frame (s_l ss) _ xs xs' q_rel0); auto.
-  - exact q_cmdq0.
-  - congruence.
-  - congruence.
-  - congruence.
-  - intros o' c' G. rewrite Fb in G. destruct (q_info0 o' c' G) as [I1 [I2 [I3 I4]]].
-    unfold info_ok. cbn [s_l use_w l_cinfo l_cdict]. split; [exact I1|]. split; [exact I2|]. rewrite TB, TC.
-    destruct built; cbn [andb negb]; destruct (N.eqb_spec o o') as [<-|]; destruct HT as [E0 _]; rewrite ?E0 in *; auto.
-  - intros o' Ho. rewrite TB, TC. assert (o =? o' = false) by (apply N.eqb_neq; lia). rewrite H, !andb_false_r. now apply q_fresh0.
-  - intros wr. rewrite in_app_iff. cbn [In]. unfold good_wr. rewrite TB, TC. split.
-    + intros [H|[<-|[]]].
-      * apply q_open0 in H. destruct H as [A [B [C D]]]. split; [exact A|]. split; [exact B|]. split; [exact C|].
-        destruct (w_kind wr); [| |exact D]; destruct built; cbn [andb negb]; try exact D;
-          destruct (N.eqb_spec o (w_obj wr)) as [E|E]; try exact D; rewrite <- E in D; destruct HT as [E0 _]; rewrite E0 in D;
-          cbn [os_holders] in *; apply in_or_app; now left.
-      * cbn [new_wait w_circ w_gone_seen w_pending_cmd w_kind w_id w_obj]. repeat split.
-        destruct built; cbn [andb negb]; rewrite N.eqb_refl; cbn [os_holders]; apply in_or_app; right; now left.
-    + intros [A [B [C D]]].
-      assert (Old : good_wr xs wr -> In wr (s_open ss) \/ new_wait w (if built then KBuilt else KClosed) o = wr \/ False) by (intros H; left; now apply q_open0).
-      destruct (w_kind wr) eqn:Ek; [| |destruct D].
-      * destruct built; cbn [andb negb] in D; [|apply Old; unfold good_wr; rewrite Ek; auto].
-        destruct (N.eqb_spec o (w_obj wr)) as [E|E]; [|apply Old; unfold good_wr; rewrite Ek; auto].
-        cbn [os_holders] in D. apply in_app_or in D as [D|[D|[]]].
-        -- apply Old. unfold good_wr. rewrite Ek, <- E. destruct HT as [E0 _]. rewrite E0. auto.
-        -- right. left. destruct wr; cbn in *. subst. reflexivity.
-      * destruct built; cbn [andb negb] in D; [apply Old; unfold good_wr; rewrite Ek; auto|].
-        destruct (N.eqb_spec o (w_obj wr)) as [E|E]; [|apply Old; unfold good_wr; rewrite Ek; auto].
-        cbn [os_holders] in D. apply in_app_or in D as [D|[D|[]]].
-        -- apply Old. unfold good_wr. rewrite Ek, <- E. destruct HT as [E0 _]. rewrite E0. auto.
-        -- right. left. destruct wr; cbn in *. subst. reflexivity.
-  - rewrite map_app. cbn [map new_wait w_id]. apply NoDup_app_end; [exact q_open_nd0|].
-    intros Hi. apply in_map_iff in Hi as [wr [E Hwr]]. apply memN_false in Hfr. apply Hfr. rewrite <- E.
-    apply q_hold_used0. apply q_open0 in Hwr. destruct Hwr as [_ [_ [_ D]]].
-    destruct (w_kind wr); [| |destruct D].
-    + apply (pend_b_in_holders xs q_cc0 q_sc0 q_cmds0 _ _ D).
-    + apply (pend_c_in_holders xs q_cc0 q_sc0 q_cmds0 _ _ D).
-  - exact HC.
-  - intros w' H. apply HU in H. exact H.
-Qed.
 
-Lemma rel2_when_built ss xs o w ls' : Rel2 ss xs -> lstep (s_l ss) (OWhenBuilt o w) = Some ls' ->
-  exists xs' es ss', x_op xs (OWhenBuilt o w) = Some (xs', es) /\ spec_op ss (OWhenBuilt o w) es = Some ss' /\ Rel2 ss' xs'.
-Proof.
-  intros Q L. pose proof L as L0. cbn [lstep] in L.
-  destruct (N.ltb_spec o (l_nc (s_l ss))) as [Hlt|]; cbn [andb] in L; [|discriminate].
-  destruct (memN w (l_used (s_l ss))) eqn:Hfr; cbn [negb] in L; [discriminate|]. injection L as <-.
-  fold (use_w (s_l ss) w) in L0 |- *.
-  pose proof (q_rel _ _ Q) as R.
-  destruct (get_c o (base xs)) as [c|] eqn:G; [|exfalso; now apply (r_cex _ _ R o Hlt)].
-  destruct (q_info _ _ Q o c G) as [I1 [I2 [I3 I4]]].
-  unfold spec_op. rewrite L0. unfold spec_request.
-  cbn [s_l]. set (info := tget (info0 0) (l_cinfo (s_l ss)) o) in *. set (al := alive (l_cdict (s_l ss)) o) in *.
-  (* decided at once with result r *)
-  assert (Now : forall r x, x_op xs (OWhenBuilt o w) = Some (xs, [NDone w r]) ->
-                (if oi_built info then [(w, WantOkC o)] else if negb al then [(w, WantFail)] else []) = [(w, x)] ->
-                res_ok x r = true ->
-                exists xs' es ss', x_op xs (OWhenBuilt o w) = Some (xs', es) /\
-                  (let '(ok, open', cmdq') :=
-                     (no_notifs es && done_ok (if oi_built info then [(w, WantOkC o)] else if negb al then [(w, WantFail)] else []) [] es
-                      && negb (has_cmd es) && negb (raised es),
-                      if memN w (map fst (dones es)) then s_open ss
-                      else s_open ss ++ [{| w_id := w; w_kind := KBuilt; w_circ := true; w_obj := o; w_gone_seen := negb al; w_pending_cmd := has_cmd es |}],
-                      if has_cmd es then s_cmdq ss ++ [(w, kmem fst (oi_id info) (l_cdict (s_l ss)))] else s_cmdq ss) in
-                   if ok then Some {| s_l := use_w (s_l ss) w; s_open := open'; s_cmdq := cmdq' |} else None) = Some ss' /\ Rel2 ss' xs').
-  { intros r x X Hm Hr. exists xs, [NDone w r], {| s_l := use_w (s_l ss) w; s_open := s_open ss; s_cmdq := s_cmdq ss |}.
-    split; [exact X|]. split; [|now apply rel2_used].
-    rewrite Hm, done_ok_single, Hr. cbn [no_notifs circ_listeners_called stream_listeners_called map concat has_cmd existsb raised
-                                         negb andb dones fst memN app]. now rewrite N.eqb_refl. }
-  fold P0 in I3.
-  destruct (c_state c) as [[]|] eqn:Ec;
-    try (apply (Now (WOkC o) (WantOkC o)); [cbn [x_op]; now rewrite G, Ec | rewrite (I1 eq_refl); reflexivity | cbn; apply N.eqb_refl]).
-  all: destruct (tget P0 (wbs xs) o) as [ws|r] eqn:Ew.
-  all: try (destruct r as [o'| | |cls r1 r2]; try contradiction;
-            [destruct I3 as [-> Hb]; apply (Now (WOkC o) (WantOkC o)); [cbn [x_op]; rewrite G, Ec; fold P0; now rewrite Ew | now rewrite Hb | cbn; apply N.eqb_refl]
-            |destruct I3 as [Hb Ha]; apply (Now (WFail cls r1 r2) WantFail); [cbn [x_op]; rewrite G, Ec; fold P0; now rewrite Ew | now rewrite Hb, Ha | reflexivity]]).
-  all: destruct I3 as [Hb Ha]; rewrite Hb, Ha; cbn [negb].
-  all: set (xs' := {| base := base xs; cls := cls xs; sls := sls xs; gcl := gcl xs; gsl := gsl xs;
-                      wbs := tset (wbs xs) o (OSPending (ws ++ [w])); wcs := wcs xs; cclosing := cclosing xs;
-                      sclosing := sclosing xs; cmds := cmds xs |}).
-  all: assert (X : x_op xs (OWhenBuilt o w) = Some (xs', [])) by (cbn [x_op]; rewrite G, Ec; fold P0; now rewrite Ew).
-  all: exists xs', [], {| s_l := use_w (s_l ss) w; s_open := s_open ss ++ [new_wait w KBuilt o]; s_cmdq := s_cmdq ss |}.
-  all: split; [exact X|]; split; [reflexivity|].
-  all: apply (rel2_pending ss xs o w true xs' ws Q Hlt Hfr X); try reflexivity; repeat split; auto.
-Qed.
 
-Lemma rel2_when_closed ss xs o w ls' : Rel2 ss xs -> lstep (s_l ss) (OWhenClosed o w) = Some ls' ->
-  exists xs' es ss', x_op xs (OWhenClosed o w) = Some (xs', es) /\ spec_op ss (OWhenClosed o w) es = Some ss' /\ Rel2 ss' xs'.
-Proof.
-  intros Q L. pose proof L as L0. cbn [lstep] in L.
-  destruct (N.ltb_spec o (l_nc (s_l ss))) as [Hlt|]; cbn [andb] in L; [|discriminate].
-  destruct (memN w (l_used (s_l ss))) eqn:Hfr; cbn [negb] in L; [discriminate|]. injection L as <-.
-  fold (use_w (s_l ss) w) in L0 |- *.
-  pose proof (q_rel _ _ Q) as R.
-  destruct (get_c o (base xs)) as [c|] eqn:G; [|exfalso; now apply (r_cex _ _ R o Hlt)].
-  destruct (q_info _ _ Q o c G) as [I1 [I2 [I3 I4]]].
-  unfold spec_op. rewrite L0. unfold spec_request.
-  cbn [s_l]. set (info := tget (info0 0) (l_cinfo (s_l ss)) o) in *. set (al := alive (l_cdict (s_l ss)) o) in *.
-  assert (Now : x_op xs (OWhenClosed o w) = Some (xs, [NDone w (WOkC o)]) -> al = false ->
-                exists xs' es ss', x_op xs (OWhenClosed o w) = Some (xs', es) /\
-                  (let '(ok, open', cmdq') :=
-                     (no_notifs es && done_ok (if negb al then [(w, WantOkC o)] else []) [] es
-                      && negb (has_cmd es) && negb (raised es),
-                      if memN w (map fst (dones es)) then s_open ss
-                      else s_open ss ++ [{| w_id := w; w_kind := KClosed; w_circ := true; w_obj := o; w_gone_seen := negb al; w_pending_cmd := has_cmd es |}],
-                      if has_cmd es then s_cmdq ss ++ [(w, kmem fst (oi_id info) (l_cdict (s_l ss)))] else s_cmdq ss) in
-                   if ok then Some {| s_l := use_w (s_l ss) w; s_open := open'; s_cmdq := cmdq' |} else None) = Some ss' /\ Rel2 ss' xs').
-  { intros X Ha. exists xs, [NDone w (WOkC o)], {| s_l := use_w (s_l ss) w; s_open := s_open ss; s_cmdq := s_cmdq ss |}.
-    split; [exact X|]. split; [|now apply rel2_used].
-    rewrite Ha. cbn [negb]. rewrite done_ok_single. cbn [res_ok]. rewrite N.eqb_refl.
-    cbn [no_notifs circ_listeners_called stream_listeners_called map concat has_cmd existsb raised negb andb dones fst memN app].
-    now rewrite N.eqb_refl. }
-  fold P0 in I4.
-  destruct (c_state c) as [[]|] eqn:Ec;
-    try (apply Now; [cbn [x_op]; now rewrite G, Ec | apply I2; auto]).
-  all: destruct (tget P0 (wcs xs) o) as [ws|r] eqn:Ew.
-  all: try (destruct I4 as [-> Ha]; apply Now; [cbn [x_op]; rewrite G, Ec; fold P0; now rewrite Ew | exact Ha]).
-  all: rewrite I4; cbn [negb].
-  all: set (xs' := {| base := base xs; cls := cls xs; sls := sls xs; gcl := gcl xs; gsl := gsl xs; wbs := wbs xs;
-                      wcs := tset (wcs xs) o (OSPending (ws ++ [w])); cclosing := cclosing xs;
-                      sclosing := sclosing xs; cmds := cmds xs |}).
-  all: assert (X : x_op xs (OWhenClosed o w) = Some (xs', [])) by (cbn [x_op]; rewrite G, Ec; fold P0; now rewrite Ew).
-  all: exists xs', [], {| s_l := use_w (s_l ss) w; s_open := s_open ss ++ [new_wait w KClosed o]; s_cmdq := s_cmdq ss |}.
-  all: split; [exact X|]; split; [reflexivity|].
-  all: apply (rel2_pending ss xs o w false xs' ws Q Hlt Hfr X); try reflexivity; repeat split; auto.
-Qed.
 
 (* ---------------------------------------------------------------- events *)
 Lemma has_cmd_app a b : has_cmd (a ++ b) = has_cmd a || has_cmd b.
@@ -591,44 +236,6 @@ Qed.
 Lemma concat_map_nil {A B} (f : A -> list B) l : (forall x, In x l -> f x = []) -> concat (map f l) = [].
 Proof. induction l as [|x t IH]; intros H; cbn; [reflexivity|]. rewrite (H x (or_introl eq_refl)), IH; auto. intros y Hy. apply H. now right. Qed.
 
-Lemma rel2_stream ss xs id st cid host port kw ls' :
-  Rel2 ss xs -> lstep (s_l ss) (OEv (EStream id st cid host port kw)) = Some ls' ->
-  exists xs' es ss', x_op xs (OEv (EStream id st cid host port kw)) = Some (xs', es) /\
-                     spec_op ss (OEv (EStream id st cid host port kw)) es = Some ss' /\ Rel2 ss' xs'.
-Proof.
-  intros Q L. pose proof (q_rel _ _ Q) as R.
-  destruct (rel_stream _ xs id st cid host port kw ls' R L) as [xs' [es [X [R' Nk]]]].
-  destruct (x_stream_waits _ _ _ _ _ _ _ _ _ (q_sc _ _ Q) X) as [F1 [F2 [F3 [F4 [F5 Dn]]]]].
-  destruct (x_stream_told _ _ _ _ _ _ _ _ _ X) as [Eb [T _]]. destruct (told_s_plain _ _ _ T) as [Hc Hr].
-  assert (AllC : forall w, In w (s_open ss) -> w_circ w = true) by (intros w Hw; apply (q_open _ _ Q) in Hw; now destruct Hw).
-  exists xs', es, {| s_l := ls'; s_open := s_open ss; s_cmdq := s_cmdq ss |}.
-  split; [exact X|]. split.
-  - unfold spec_op. rewrite L. unfold spec_event. cbn [s_l].
-    destruct (locate id (l_sdict (s_l ss)) (l_ns (s_l ss))) as [first o].
-    assert (Mine : filter (fun w => negb (w_circ w) && (w_obj w =? o)) (s_open ss) = []).
-    { induction (s_open ss) as [|w t IH]; [reflexivity|]. cbn [filter]. rewrite (AllC w (or_introl eq_refl)). cbn [negb andb].
-      apply IH. intros w' Hw'. apply AllC. now right. }
-    rewrite Mine. cbn [map concat]. rewrite Nk, (done_ok_none es Dn), Hc, Hr. cbn [andb negb].
-    rewrite Dn. rewrite drop_done_nil, (mark_gone_other false o (s_open ss) AllC). now destruct (s_terminal st).
-  - cbn [lstep] in L. destruct (negb (ev_legal (l_tv (s_l ss)) (EStream id st cid host port kw))); [discriminate|].
-    destruct (locate id (l_sdict (s_l ss)) (l_ns (s_l ss))) as [first o]. injection L as <-.
-    destruct (stream_event_shape (base xs) id st cid host port kw (base xs') (r_wf _ _ R) Eb) as [[Sc1 [Sc2 Sc3]] _].
-    assert (F1' : sclosing xs' = sclosing xs) by (rewrite F1; symmetry; exact (q_sc _ _ Q)).
-    destruct Q. constructor; cbn [s_l s_open s_cmdq l_nc l_cinfo l_cdict l_used].
-    + exact R'.
-    + exact q_cmdq0.
-    + congruence.
-    + congruence.
-    + exact F1.
-    + intros o' c' G'. pose proof (Sc3 o') as S3. rewrite G' in S3. cbn [option_map] in S3.
-      destruct (get_c o' (base xs)) as [c0|] eqn:G0; [|discriminate]. cbn [option_map] in S3. injection S3 as S3a S3b S3c.
-      destruct (q_info0 o' c0 G0) as [I1 [I2 [I3 I4]]]. unfold info_ok. cbn [s_l l_cinfo l_cdict]. rewrite F4, F5, S3b. auto.
-    + intros o' Ho. rewrite F4, F5. now apply q_fresh0.
-    + intros wr. rewrite (good_wr_ext xs xs' wr F4 F5). apply q_open0.
-    + exact q_open_nd0.
-    + intros w. unfold holders. rewrite F1', F2, F3, F4, F5. apply q_hold_cnt0.
-    + intros w. unfold holders. rewrite F1', F2, F3, F4, F5. apply q_hold_used0.
-Qed.
 
 (* ---- which object numbers a dict lists, after the event's own change ---- *)
 Lemma alive_app d id o o' : alive (d ++ [(id, o)]) o' = alive d o' || (o' =? o).
@@ -707,329 +314,17 @@ Definition may_c (st : cstatus) (o : N) (ws : list wait) : list (N * want) :=
                         | _ => []
                         end) (filter (fun w => w_circ w && (w_obj w =? o)) ws)).
 
-Section CircWaits.
-  Variables (ss : sstate) (xs : xstate) (o : N).
-  Hypothesis Q : Rel2 ss xs.
-  Let PB := pend (wbs xs) o.
-  Let PC := pend (wcs xs) o.
-
-  Lemma open_b w : In w PB <-> In (new_wait w KBuilt o) (s_open ss).
-  Proof.
-    rewrite (q_open _ _ Q). unfold good_wr, new_wait. cbn. unfold PB, pend. tauto.
-  Qed.
-  Lemma open_c w : In w PC <-> In (new_wait w KClosed o) (s_open ss).
-  Proof.
-    rewrite (q_open _ _ Q). unfold good_wr, new_wait. cbn. unfold PC, pend. tauto.
-  Qed.
-
-  Lemma open_shape wr : In wr (s_open ss) ->
-    (wr = new_wait (w_id wr) KBuilt (w_obj wr) /\ In (w_id wr) (pend (wbs xs) (w_obj wr))) \/
-    (wr = new_wait (w_id wr) KClosed (w_obj wr) /\ In (w_id wr) (pend (wcs xs) (w_obj wr))).
-  Proof.
-    intros H. apply (q_open _ _ Q) in H. destruct H as [A [B [C D]]].
-    destruct wr as [i k c ob g p]. cbn in *. subst. destruct k; [left | right | destruct D]; split; auto.
-  Qed.
-
-  Lemma open_id_unique wr wr' : In wr (s_open ss) -> In wr' (s_open ss) -> w_id wr = w_id wr' -> wr = wr'.
-  Proof.
-    intros A B E. pose proof (q_open_nd _ _ Q) as Hnd. revert A B E. induction (s_open ss) as [|x t IH]; [intros []|].
-    cbn [map] in Hnd. inversion Hnd as [|? ? Hn Hd]; subst. intros [A|A] [B|B] E.
-    - congruence.
-    - exfalso. subst x. apply Hn. rewrite E. now apply in_map.
-    - exfalso. subst x. apply Hn. rewrite <- E. now apply in_map.
-    - now apply IH.
-  Qed.
-
-  Lemma may_c_nil st : may_c st o (s_open ss) = [].
-  Proof.
-    unfold may_c. apply concat_map_nil. intros wr H. apply filter_In in H as [H _].
-    destruct (open_shape wr H) as [[-> _]|[-> _]]; reflexivity.
-  Qed.
-
-  Lemma must_c_In st w x : In (w, x) (must_c st o (s_open ss)) <->
-    (In w PB /\ ((st = CBuilt /\ x = WantOkC o) \/ (c_terminal st = true /\ x = WantFail))) \/
-    (In w PC /\ c_terminal st = true /\ x = WantOkC o).
-  Proof.
-    unfold must_c. rewrite in_concat_map. split.
-    - intros [wr [Hf Hin]]. apply filter_In in Hf as [Hop Hf]. apply andb_true_iff in Hf as [_ Ho]. apply N.eqb_eq in Ho.
-      destruct (open_shape wr Hop) as [[E Hp]|[E Hp]]; rewrite E in Hin; cbn [new_wait w_kind w_id] in Hin; rewrite Ho in Hp.
-      + left. destruct st; cbn [c_terminal] in Hin; try destruct Hin as [[= <- <-]|[]]; try destruct Hin; split; auto.
-      + right. destruct st; cbn [c_terminal] in Hin; try destruct Hin as [[= <- <-]|[]]; try destruct Hin; split; auto.
-    - intros [[Hp Hc]|[Hp [Ht ->]]].
-      + exists (new_wait w KBuilt o). split.
-        * apply filter_In. split; [now apply open_b|]. cbn. now rewrite N.eqb_refl.
-        * cbn [new_wait w_kind w_id]. destruct Hc as [[-> ->]|[Ht ->]]; [now left|].
-          destruct st; try discriminate Ht; now left.
-      + exists (new_wait w KClosed o). split.
-        * apply filter_In. split; [now apply open_c|]. cbn. now rewrite N.eqb_refl.
-        * cbn [new_wait w_kind w_id]. rewrite Ht. now left.
-  Qed.
-
-  Lemma PB_PC_disjoint w : In w PB -> In w PC -> False.
-  Proof. apply (pend_b_c xs (q_cc _ _ Q) (q_sc _ _ Q) (q_cmds _ _ Q) (q_hold_cnt _ _ Q)). Qed.
-
-  (* the completions the model reports on this event are exactly the ones demanded *)
-  Lemma circ_done_ok st es rfail :
-    (match rfail with WFail _ _ _ => True | _ => False end) ->
-    dones es = (if c_terminal st then map (fun w => (w, WOkC o)) PC ++ map (fun w => (w, rfail)) PB
-                else match st with CBuilt => map (fun w => (w, WOkC o)) PB | _ => [] end) ->
-    done_ok (must_c st o (s_open ss)) (may_c st o (s_open ss)) es = true.
-  Proof.
-    intros Hf Hd. rewrite may_c_nil.
-    pose proof (pend_b_nodup xs (q_cc _ _ Q) (q_sc _ _ Q) (q_cmds _ _ Q) (q_hold_cnt _ _ Q) o) as NB.
-    pose proof (pend_c_nodup xs (q_cc _ _ Q) (q_sc _ _ Q) (q_cmds _ _ Q) (q_hold_cnt _ _ Q) o) as NC.
-    fold PB in NB. fold PC in NC.
-    assert (Uniq : forall w x x', In (w, x) (must_c st o (s_open ss)) -> In (w, x') (must_c st o (s_open ss)) -> x' = x).
-    { intros w x x' A B. apply must_c_In in A. apply must_c_In in B.
-      destruct A as [[A1 A2]|[A1 [A2 ->]]]; destruct B as [[B1 B2]|[B1 [B2 ->]]].
-      - destruct A2 as [[-> ->]|[T ->]]; destruct B2 as [[E ->]|[T' ->]]; try reflexivity; try discriminate.
-        subst st. discriminate T.
-      - exfalso. eapply PB_PC_disjoint; eauto.
-      - exfalso. eapply PB_PC_disjoint; eauto.
-      - reflexivity. }
-    apply done_ok_intro; rewrite ?app_nil_r.
-    - rewrite Hd. destruct (c_terminal st).
-      + rewrite map_app, !map_map. cbn [fst]. rewrite !map_id.
-        apply NoDup_app_intro; auto. intros w A B. eapply PB_PC_disjoint; eauto.
-      + destruct st; try constructor. rewrite map_map. cbn [fst]. now rewrite map_id.
-    - intros w r Hin. rewrite Hd in Hin. destruct (c_terminal st) eqn:T.
-      + apply in_app_or in Hin as [Hin|Hin]; apply in_map_iff in Hin as [w0 [[= <- <-] Hw]].
-        * exists (WantOkC o). split; [apply must_c_In; right; auto|]. split; [cbn; apply N.eqb_refl|].
-          intros x' Hx'. eapply Uniq; [apply must_c_In; right; eauto | exact Hx'].
-        * exists WantFail. split; [apply must_c_In; left; auto|]. split; [destruct rfail; try contradiction; reflexivity|].
-          intros x' Hx'. eapply Uniq; [apply must_c_In; left; eauto | exact Hx'].
-      + destruct st; try destruct Hin; try discriminate T.
-        apply in_map_iff in Hin as [w0 [[= <- <-] Hw]].
-        exists (WantOkC o). split; [apply must_c_In; left; auto|]. split; [cbn; apply N.eqb_refl|].
-        intros x' Hx'. eapply Uniq; [apply must_c_In; left; eauto | exact Hx'].
-    - intros w x Hin. apply must_c_In in Hin. rewrite Hd.
-      destruct Hin as [[Hp [[-> ->]|[T ->]]]|[Hp [T ->]]].
-      + cbn [c_terminal]. rewrite map_map. cbn [fst]. now rewrite map_id.
-      + rewrite T, map_app, !map_map. cbn [fst]. rewrite !map_id. apply in_or_app. now right.
-      + rewrite T, map_app, !map_map. cbn [fst]. rewrite !map_id. apply in_or_app. now left.
-  Qed.
-End CircWaits.
 
 Definition is_built (st : cstatus) : bool := match st with CBuilt => true | _ => false end.
 
-Lemma good_wr_shape xs wr : good_wr xs wr <->
-  (wr = new_wait (w_id wr) KBuilt (w_obj wr) /\ In (w_id wr) (pend (wbs xs) (w_obj wr))) \/
-  (wr = new_wait (w_id wr) KClosed (w_obj wr) /\ In (w_id wr) (pend (wcs xs) (w_obj wr))).
-Proof.
-  unfold good_wr, pend. split.
-  - intros [A [B [C D]]]. destruct wr as [i k c ob g p]. cbn in *. subst. destruct k; [left | right | destruct D]; split; auto.
-  - intros [[-> H]|[-> H]]; cbn in *; auto.
-Qed.
 
-Lemma circ_open_ok ss xs xs' o st ds : Rel2 ss xs ->
-  (forall o', pend (wbs xs') o' = if (is_built st || c_terminal st) && (o =? o') then [] else pend (wbs xs) o') ->
-  (forall o', pend (wcs xs') o' = if c_terminal st && (o =? o') then [] else pend (wcs xs) o') ->
-  map fst ds = (if c_terminal st then pend (wcs xs) o ++ pend (wbs xs) o else if is_built st then pend (wbs xs) o else []) ->
-  forall wr, In wr (if c_terminal st then mark_gone true o ds (s_open ss) else drop_done ds (s_open ss)) <-> good_wr xs' wr.
-Proof.
-  intros Q TB TC Hds wr.
-  pose proof (pend_b_b xs (q_cc _ _ Q) (q_sc _ _ Q) (q_cmds _ _ Q) (q_hold_cnt _ _ Q)) as BB.
-  pose proof (pend_c_c xs (q_cc _ _ Q) (q_sc _ _ Q) (q_cmds _ _ Q) (q_hold_cnt _ _ Q)) as CC.
-  pose proof (pend_b_c xs (q_cc _ _ Q) (q_sc _ _ Q) (q_cmds _ _ Q) (q_hold_cnt _ _ Q)) as BC.
-  (* a record that survives is one on another object, and conversely *)
-  assert (Key : good_wr xs' wr <-> (In wr (s_open ss) /\ ~ In (w_id wr) (map fst ds) /\
-                                    (c_terminal st = true -> w_obj wr <> o))).
-  { rewrite (good_wr_shape xs' wr), (q_open _ _ Q wr), (good_wr_shape xs wr), Hds, TB, TC. split.
-    - intros [[E H]|[E H]].
-      + destruct ((is_built st || c_terminal st) && (o =? w_obj wr)) eqn:Ec; [destruct H|].
-        split; [left; auto|]. split.
-        * destruct (c_terminal st) eqn:T; [|destruct (is_built st) eqn:Bu]; rewrite ?orb_true_r, ?orb_false_r in Ec; cbn [orb andb] in Ec.
-          -- apply N.eqb_neq in Ec. intros Hi. apply in_app_or in Hi as [Hi|Hi]; [eapply BC; eauto | apply Ec; eapply BB; eauto].
-          -- apply N.eqb_neq in Ec. intros Hi. apply Ec. eapply BB; eauto.
-          -- intros [].
-        * intros T. rewrite T, orb_true_r in Ec. cbn [andb] in Ec. apply N.eqb_neq in Ec. congruence.
-      + destruct (c_terminal st && (o =? w_obj wr)) eqn:Ec; [destruct H|].
-        split; [right; auto|]. split.
-        * destruct (c_terminal st) eqn:T; [|destruct (is_built st) eqn:Bu]; cbn [orb andb] in Ec.
-          -- apply N.eqb_neq in Ec. intros Hi. apply in_app_or in Hi as [Hi|Hi]; [apply Ec; eapply CC; eauto | eapply BC; eauto].
-          -- intros Hi. eapply BC; eauto.
-          -- intros [].
-        * intros T. rewrite T in Ec. cbn [andb] in Ec. apply N.eqb_neq in Ec. congruence.
-    - intros [[[E H]|[E H]] [Hn Ht]].
-      + left. split; [exact E|].
-        destruct ((is_built st || c_terminal st) && (o =? w_obj wr)) eqn:Ec; [|exact H].
-        exfalso. apply andb_true_iff in Ec as [Ec1 Ec2]. apply N.eqb_eq in Ec2. rewrite <- Ec2 in H.
-        destruct (c_terminal st) eqn:T; [now apply Ht|]. rewrite orb_false_r in Ec1. rewrite Ec1 in Hn. now apply Hn.
-      + right. split; [exact E|].
-        destruct (c_terminal st && (o =? w_obj wr)) eqn:Ec; [|exact H].
-        exfalso. apply andb_true_iff in Ec as [Ec1 Ec2]. apply N.eqb_eq in Ec2. apply Ht; congruence. }
-  rewrite Key. destruct (c_terminal st) eqn:T.
-  - rewrite mark_gone_In. split.
-    + intros [w0 [H0 [H1 ->]]].
-      assert (Ho : w_obj w0 <> o).
-      { intros Eo. apply H1. rewrite Hds.
-        apply (q_open _ _ Q) in H0. apply good_wr_shape in H0. destruct H0 as [[_ H]|[_ H]]; rewrite Eo in H; apply in_or_app; auto. }
-      apply N.eqb_neq in Ho. rewrite Ho, andb_false_r. apply N.eqb_neq in Ho. auto.
-    + intros [H0 [H1 H2]]. exists wr. split; [exact H0|]. split; [exact H1|].
-      specialize (H2 eq_refl). apply N.eqb_neq in H2. now rewrite H2, andb_false_r.
-  - rewrite drop_done_In. split; [intros [A B]; repeat split; auto; discriminate | tauto].
-Qed.
 
 Lemma map_fst_pairs {B} (r : B) (l : list N) : map fst (map (fun w => (w, r)) l) = l.
 Proof. rewrite map_map. cbn [fst]. apply map_id. Qed.
 
-Lemma rel2_circ ss xs id st path kw ls' :
-  Rel2 ss xs -> lstep (s_l ss) (OEv (ECirc id st path kw)) = Some ls' ->
-  exists xs' es ss', x_op xs (OEv (ECirc id st path kw)) = Some (xs', es) /\
-                     spec_op ss (OEv (ECirc id st path kw)) es = Some ss' /\ Rel2 ss' xs'.
-Proof.
-  intros Q L. pose proof (q_rel _ _ Q) as R. pose proof (r_wf _ _ R) as W.
-  destruct (rel_circ _ xs id st path kw ls' R L) as [xs' [es [X [R' Nk]]]].
-  destruct (x_circ_waits _ _ _ _ _ _ _ (q_cc _ _ Q) X) as [F1 [F2 [F3 Wst]]].
-  destruct (x_circ_told _ _ _ _ _ _ _ X) as [Eb [T _]]. destruct (told_c_plain _ _ _ T) as [Hc Hr].
-  set (o := xc_obj xs id) in *.
-  assert (Eloc : locate id (l_cdict (s_l ss)) (l_nc (s_l ss)) = (xc_first xs id, o)).
-  { unfold locate, xc_first, o, xc_obj. rewrite <- (r_cdict _ _ R), <- (r_nc _ _ R).
-    destruct (kfind fst id (circuits (base xs))); reflexivity. }
-  (* the tables after the event, and what was reported done *)
-  assert (Tabs : exists rfail, match rfail with WFail _ _ _ => True | _ => False end /\
-     (forall o', tget P0 (wbs xs') o' =
-                 if o =? o' then match tget P0 (wbs xs) o with
-                                 | OSPending ws => if c_terminal st then OSFired rfail else if is_built st then OSFired (WOkC o) else OSPending ws
-                                 | f => f end
-                 else tget P0 (wbs xs) o') /\
-     (forall o', tget P0 (wcs xs') o' =
-                 if o =? o' then match tget P0 (wcs xs) o with
-                                 | OSPending ws => if c_terminal st then OSFired (WOkC o) else OSPending ws
-                                 | f => f end
-                 else tget P0 (wcs xs) o') /\
-     dones es = (if c_terminal st then map (fun w => (w, WOkC o)) (pend (wcs xs) o) ++ map (fun w => (w, rfail)) (pend (wbs xs) o)
-                 else match st with CBuilt => map (fun w => (w, WOkC o)) (pend (wbs xs) o) | _ => [] end)).
-  { unfold pend.
-    assert (Same : forall t, forall o', tget P0 t o' = if o =? o' then match tget P0 t o with OSPending ws => OSPending ws | f => f end else tget P0 t o').
-    { intros t o'. destruct (N.eqb_spec o o') as [<-|]; [|reflexivity]. destruct (tget P0 t o); reflexivity. }
-    destruct st; cbn [c_terminal is_built] in *.
-    - destruct Wst as [A [B C]]. exists (WFail 0 0 0). split; [exact I|]. rewrite A, B. split; [apply Same|]. split; [apply Same | exact C].
-    - destruct Wst as [A [B C]]. exists (WFail 0 0 0). split; [exact I|]. rewrite A. split; [|split; [apply Same|]].
-      + intros o'. rewrite B. destruct (o =? o'); [|reflexivity]. destruct (tget P0 (wbs xs) o); reflexivity.
-      + rewrite C. destruct (tget P0 (wbs xs) o); reflexivity.
-    - destruct Wst as [A [B C]]. exists (WFail 0 0 0). split; [exact I|]. rewrite A, B. split; [apply Same|]. split; [apply Same | exact C].
-    - destruct Wst as [A [B C]]. exists (WFail 0 0 0). split; [exact I|]. rewrite A, B. split; [apply Same|]. split; [apply Same | exact C].
-    - destruct Wst as [cl [r1 [r2 [A [B C]]]]]. exists (WFail cl r1 r2). split; [exact I|]. split; [exact B|]. split; [exact A|].
-      rewrite C. destruct (tget P0 (wcs xs) o); destruct (tget P0 (wbs xs) o); reflexivity.
-    - destruct Wst as [cl [r1 [r2 [A [B C]]]]]. exists (WFail cl r1 r2). split; [exact I|]. split; [exact B|]. split; [exact A|].
-      rewrite C. destruct (tget P0 (wcs xs) o); destruct (tget P0 (wbs xs) o); reflexivity. }
-  destruct Tabs as [rfail [Hrf [TB [TC Hd]]]].
-  assert (PBt : forall o', pend (wbs xs') o' = if (is_built st || c_terminal st) && (o =? o') then [] else pend (wbs xs) o').
-  { intros o'. unfold pend. rewrite TB. destruct (N.eqb_spec o o') as [<-|]; [|now rewrite andb_false_r].
-    rewrite andb_true_r. destruct (tget P0 (wbs xs) o); destruct (c_terminal st); destruct (is_built st); reflexivity. }
-  assert (PCt : forall o', pend (wcs xs') o' = if c_terminal st && (o =? o') then [] else pend (wcs xs) o').
-  { intros o'. unfold pend. rewrite TC. destruct (N.eqb_spec o o') as [<-|]; [|now rewrite andb_false_r].
-    rewrite andb_true_r. destruct (tget P0 (wcs xs) o); destruct (c_terminal st); reflexivity. }
-  assert (Hds : map fst (dones es) = (if c_terminal st then pend (wcs xs) o ++ pend (wbs xs) o
-                                      else if is_built st then pend (wbs xs) o else [])).
-  { rewrite Hd. destruct (c_terminal st); [now rewrite map_app, !map_fst_pairs|]. destruct st; cbn [is_built]; try reflexivity. apply map_fst_pairs. }
-  set (open' := if c_terminal st then mark_gone true o (dones es) (s_open ss) else drop_done (dones es) (s_open ss)).
-  exists xs', es, {| s_l := ls'; s_open := open'; s_cmdq := s_cmdq ss |}.
-  split; [exact X|]. split.
-  - unfold spec_op. rewrite L. unfold spec_event. cbn [s_l]. rewrite Eloc.
-    change (concat (map _ (filter (fun w => w_circ w && (w_obj w =? o)) (s_open ss)))) with (must_c st o (s_open ss)) at 1.
-    change (concat (map _ (filter (fun w => w_circ w && (w_obj w =? o)) (s_open ss)))) with (may_c st o (s_open ss)).
-    rewrite Nk, (circ_done_ok ss xs o Q st es rfail Hrf Hd), Hc, Hr. reflexivity.
-  - (* the new state *)
-    destruct (circ_event_shape (base xs) id st path kw (base xs') W Eb) as [Sh1 [Sh2 [Sh3 [Sh4 [[c' [Gc' [Ic' Sc']]] Sh6]]]]].
-    change (get_c o (base xs') = Some c') in Gc'.
-    change (forall o', o' <> o -> get_c o' (base xs') = get_c o' (base xs)) in Sh6.
-    pose proof L as L1. cbn [lstep] in L1.
-    destruct (negb (ev_legal (l_tv (s_l ss)) (ECirc id st path kw))); [discriminate|].
-    rewrite Eloc in L1. injection L1 as <-.
-    set (d1 := if xc_first xs id then l_cdict (s_l ss) ++ [(id, o)] else l_cdict (s_l ss)) in *.
-    (* facts about the object of the event, before it *)
-    assert (Hin1 : In (id, o) d1 /\ NoDup (map fst d1) /\ NoDup (map snd d1) /\
-                   (xc_first xs id = false -> In (id, o) (l_cdict (s_l ss))) /\
-                   (xc_first xs id = true -> o = l_nc (s_l ss))).
-    { unfold d1, o, xc_obj, xc_first. rewrite <- (r_cdict _ _ R), <- (r_nc _ _ R).
-      destruct (kfind fst id (circuits (base xs))) as [p|] eqn:Fk.
-      - destruct (kfind_Some fst _ _ _ Fk) as [Ep Hp]. destruct p as [a b]. cbn [fst snd] in *. subst a.
-        split; [exact Hp|]. split; [exact (wf_cids _ W)|]. split; [exact (wf_coids _ W)|]. split; [auto | discriminate].
-      - split; [apply in_or_app; right; now left|]. split; [|split; [|split; [discriminate | reflexivity]]].
-        + rewrite map_app. cbn [map fst]. apply NoDup_app_end; [exact (wf_cids _ W) | now apply kfind_None].
-        + rewrite map_app. cbn [map snd]. apply NoDup_app_end; [exact (wf_coids _ W)|].
-          intros Hi. apply in_map_iff in Hi as [p [Ep Hp]]. destruct (wf_clive _ W p Hp) as [c0 [G0 _]].
-          pose proof (get_c_bound _ _ _ W G0). lia. }
-    destruct Hin1 as [Hin1 [Nf1 [Ns1 [Hex Hnew]]]].
-    assert (Al' : alive (if c_terminal st then kdel fst id d1 else d1) o = negb (c_terminal st)).
-    { destruct (c_terminal st); cbn [negb]; [now apply alive_kdel_self | now apply (alive_In d1 id o)]. }
-    assert (AlO : forall o', o' <> o -> alive (if c_terminal st then kdel fst id d1 else d1) o' = alive (l_cdict (s_l ss)) o').
-    { intros o' Hne. assert (A1 : alive d1 o' = alive (l_cdict (s_l ss)) o').
-      { unfold d1. destruct (xc_first xs id); [|reflexivity]. rewrite alive_app. apply N.eqb_neq in Hne. now rewrite Hne, orb_false_r. }
-      destruct (c_terminal st); [|exact A1]. now rewrite (alive_kdel_other d1 id o o' Nf1 Hin1 Hne). }
-    (* the old status of the object's tables: it was alive, or it is new *)
-    assert (OldB : match tget P0 (wbs xs) o with
-                   | OSPending _ => oi_built (tget (info0 id) (l_cinfo (s_l ss)) o) = false
-                   | OSFired (WOkC o') => o' = o /\ oi_built (tget (info0 id) (l_cinfo (s_l ss)) o) = true
-                   | OSFired _ => False
-                   end /\
-                   match tget P0 (wcs xs) o with OSPending _ => True | OSFired _ => False end).
-    { rewrite (oi_built_default id 0). destruct (xc_first xs id) eqn:Ef.
-      - destruct (q_fresh _ _ Q o) as [A [B C]]; [rewrite (Hnew eq_refl); lia|]. rewrite A, B, C. split; [reflexivity | exact I].
-      - pose proof (Hex eq_refl) as Hdict. rewrite <- (r_cdict _ _ R) in Hdict.
-        destruct (wf_clive _ W _ Hdict) as [c0 [G0 _]]. cbn [snd] in G0.
-        destruct (q_info _ _ Q o c0 G0) as [_ [_ [I3 I4]]]. rewrite (alive_In _ id o (Hex eq_refl)) in I3, I4.
-        split.
-        + destruct (tget P0 (wbs xs) o) as [ws|[o'| | |cl r1 r2]]; try tauto. destruct I3; discriminate.
-        + destruct (tget P0 (wcs xs) o) as [ws|r]; [exact I | destruct I4; discriminate]. }
-    destruct OldB as [OldB OldC].
-    destruct (hold_step xs (OEv (ECirc id st path kw)) xs' es (l_used (s_l ss)) X (q_hold_cnt _ _ Q) (q_hold_used _ _ Q))
-      as [HC HU]; [intros w []|].
-    constructor; cbn [s_l s_open s_cmdq l_nc l_cinfo l_cdict l_used].
-    + exact R'.
-    + exact (q_cmdq _ _ Q).
-    + rewrite F3. exact (q_cmds _ _ Q).
-    + exact F1.
-    + rewrite F2. exact (q_sc _ _ Q).
-    + intros o' c1 G1. unfold info_ok. cbn [s_l l_cinfo l_cdict]. rewrite TB, TC.
-      destruct (N.eqb_spec o o') as [<-|Hne].
-      * rewrite Gc' in G1. injection G1 as <-. rewrite tget_tset, N.eqb_refl. cbn [oi_built]. rewrite Al'.
-        split; [intros E; rewrite Sc' in E; injection E as ->; now rewrite orb_true_r|].
-        split; [rewrite Sc'; destruct st; cbn; split; try discriminate; try tauto; intros [H|H]; discriminate|].
-        split.
-        -- destruct (tget P0 (wbs xs) o) as [ws|[o'| | |cl r1 r2]]; try contradiction.
-           ++ rewrite OldB. destruct st; cbn [c_terminal is_built negb orb]; auto; destruct rfail; try contradiction; auto.
-           ++ destruct OldB as [-> Hb]. rewrite Hb. cbn [orb]. auto.
-        -- destruct (tget P0 (wcs xs) o) as [ws|r]; [|contradiction].
-           destruct st; cbn [c_terminal negb]; auto.
-      * assert (G0 : get_c o' (base xs) = Some c1) by (rewrite <- (Sh6 o' (not_eq_sym Hne)); exact G1).
-        destruct (q_info _ _ Q o' c1 G0) as [I1 [I2 [I3 I4]]].
-        rewrite tget_tset. apply N.eqb_neq in Hne. rewrite Hne. apply N.eqb_neq in Hne.
-        rewrite (AlO o' (not_eq_sym Hne)). auto.
-    + intros o' Ho'.
-      assert (Hne : o <> o').
-      { destruct (xc_first xs id) eqn:Ef; [rewrite (Hnew eq_refl); lia|].
-        pose proof (Hex eq_refl) as Hdict. rewrite <- (r_cdict _ _ R) in Hdict.
-        destruct (wf_clive _ W _ Hdict) as [c0 [G0 _]]. cbn [snd] in G0. pose proof (get_c_bound _ _ _ W G0).
-        rewrite (r_nc _ _ R) in H. lia. }
-      rewrite TB, TC, tget_tset. apply N.eqb_neq in Hne. rewrite Hne. apply (q_fresh _ _ Q).
-      destruct (xc_first xs id); lia.
-    + intros wr. unfold open'. apply (circ_open_ok ss xs xs' o st (dones es) Q PBt PCt Hds).
-    + unfold open'. destruct (c_terminal st); [rewrite mark_gone_ids|]; apply drop_done_ids_nodup; exact (q_open_nd _ _ Q).
-    + exact HC.
-    + exact HU.
-Qed.
 
 (* ---------------------------------------------------------------- histories without close requests *)
-Definition not_close (o : op) : bool := match o with OCClose _ _ | OSClose _ _ => false | _ => true end.
 
-Lemma rel2_op ss xs o ls' : Rel2 ss xs -> lstep (s_l ss) o = Some ls' -> not_close o = true ->
-  exists xs' es ss', x_op xs o = Some (xs', es) /\ spec_op ss o es = Some ss' /\ Rel2 ss' xs'.
-Proof.
-  intros Q L N. destruct o as [e|l|l|ob l|ob l|ob l|ob l|ob wt|ob wt|ob wt|ob wt|]; try discriminate N.
-  - destruct e; [now apply (rel2_circ ss xs _ _ _ _ ls') | now apply (rel2_stream ss xs _ _ _ _ _ _ ls')].
-  - now apply (rel2_listener ss xs _ ls').
-  - now apply (rel2_listener ss xs _ ls').
-  - now apply (rel2_listener ss xs _ ls').
-  - now apply (rel2_listener ss xs _ ls').
-  - now apply (rel2_listener ss xs _ ls').
-  - now apply (rel2_listener ss xs _ ls').
-  - now apply (rel2_when_built ss xs _ _ ls').
-  - now apply (rel2_when_closed ss xs _ _ ls').
-  - now apply rel2_ack.
-Qed.
 
 Lemma spec_op_l ss o es ss' : spec_op ss o es = Some ss' -> lstep (s_l ss) o = Some (s_l ss').
 Proof.
@@ -1037,21 +332,4 @@ Proof.
   destruct (match o with OEv e => _ | _ => _ end) as [[ok op'] cq]. destruct ok; [|discriminate]. now intros [= <-].
 Qed.
 
-Lemma oracle_no_close_from ops : forall ss xs, Rel2 ss xs -> legal8_from (s_l ss) ops = true -> no_close ops = true ->
-  exists tr, xrun_from xs ops = Some tr /\ oracle_from8 ss ops tr = true.
-Proof.
-  induction ops as [|o t IH]; intros ss xs Q L N; cbn [xrun_from legal8_from oracle_from8 no_close forallb] in *.
-  - exists []. auto.
-  - apply andb_true_iff in N as [N1 N2].
-    destruct (lstep (s_l ss) o) as [ls'|] eqn:E; [|discriminate].
-    destruct (rel2_op ss xs o ls' Q E N1) as [xs' [es [ss' [X [S Q']]]]]. rewrite X.
-    pose proof (spec_op_l _ _ _ _ S) as El. rewrite E in El. injection El as El.
-    rewrite El in L. destruct (IH ss' xs' Q' L N2) as [tr [Xr Or]]. rewrite Xr.
-    exists (es :: tr). split; [reflexivity|]. cbn [oracle_from8]. now rewrite S.
-Qed.
 
-(* on every legal history without close requests -- any events, any listener schedule, any when_built /
-   when_closed requests at any position -- the model's trace satisfies the whole oracle *)
-Lemma oracle_no_close rts ops : legal8 ops = true -> no_close ops = true ->
-  exists tr, xrun rts ops = Some tr /\ oracle8 ops tr = true.
-Proof. intros L N. exact (oracle_no_close_from ops ss0 (xinit rts) (Rel2_init rts) L N). Qed.
